@@ -7,6 +7,7 @@ import (
 	"strconv"
 	"strings"
 	"sync"
+	"time"
 
 	"github.com/conduitio/conduit-commons/config"
 	"github.com/conduitio/conduit-commons/opencdc"
@@ -56,7 +57,18 @@ func (p *Proc) Configure(_ context.Context, cfg config.Config) error {
 
 func (p *Proc) Open(ctx context.Context) error {
 	if len(p.S.OpenMenu) > 0 {
-		if a := p.W.Gate(ctx, "proc."+p.S.Name+".open", p.S.OpenMenu...); a != "ok" {
+		a := p.W.Gate(ctx, "proc."+p.S.Name+".open", p.S.OpenMenu...)
+		if a == "slow" {
+			// a slow but responding plugin: Open takes a minute (virtual time) and then succeeds
+			p.W.Log("proc:"+p.Inst, "slowopen", -1, p.gen)
+			select {
+			case <-time.After(60 * time.Second):
+				a = "ok"
+			case <-ctx.Done():
+				a = "ctx"
+			}
+		}
+		if a != "ok" {
 			p.W.Log("proc:"+p.Inst, "openfail", -1, p.gen)
 			return cerrors.Errorf("processor %s: open failed (%s)", p.S.Name, a)
 		}
